@@ -472,7 +472,11 @@ class C09(DiffProperty):
                 "the well-formedness conditions are Gallina definitions (coq/C08/PrintModel.v).  Not modelled, compared with nothing: "
                 "allocation failure paths; mpt_meta_arguments and the entry converter of meta_buffer.c (not used by the parser, "
                 "driven by C19); the relative-position entry points of node/node_insert.c (mpt_node_add / mpt_node_insert, driven "
-                "by C14; mpt_node_append uses mpt_gnode_insert / mpt_gnode_add with position 0 only)")
+                "by C14; mpt_node_append uses mpt_gnode_insert / mpt_gnode_add with position 0 only: in node_insert.c the lines 25, "
+                "29-31, 34, 42, 63-70, 86, 92-105 cannot be reached from the parser, see docs/notes_C09.md; repeated names are "
+                "appended as further siblings without any lookup).  The path of the model carries the SepBinary flag since the C08 "
+                "caller-loop family; every C09 theorem is about mpt_parse_node, whose path never has it (the lemmas carry "
+                "pbin = false through every element call)")
     trusted = ["harness/c09_roundtrip.c reads names with mpt_node_ident, values through the metatype's own conversion (vector of "
                "char, terminating zero removed; the string and iterator views, where answered, are compared with it: !str / !iter) "
                "and checks parent/prev links directly",
